@@ -107,6 +107,17 @@ RULE = (
     '(l) sizes coinciding with internal ones: 0..3 contact x regular authors and reducers (pair versus loop), calibrations of '
     '1, 3, 4, 5, 6 powers (4 standard ids), loops of 1..3 rows x 1..4 columns on the dim of the schema loop, block codes of 1, '
     '2, 74, 75, 76 characters.  '
+    '(m) forked builder chains: per combinator (with_authors, with_reducers, with_beamline, with_reduced_powder_data, '
+    'with_powder_calibration) a tree of 13 builders - the call once, twice and three times along a chain (directly and with '
+    'another call in between), twice on two branches from one parent and from the root, repeated with equal arguments, next '
+    'to every other combinator on sibling branches; every builder saved once, only after all relatives were derived, in '
+    'derivation / reverse / shuffled order and the parent with two children in all 6 orders (fresh tree per order): judged '
+    'against the calls on the builder\'s own path (fixed tags supplied twice by the caller: user content item by item in '
+    'call order) and text-equal, up to the creation date, to an identically constructed builder without relatives.  '
+    '(n) tags from the whole CIF 1.1 data-name alphabet: every printable ASCII character 33..126 leading, inside category and '
+    'item name, trailing and alone, plus names of the official dictionaries with / % ( ) ^ \' : + * & < > { , } = | ~ ? ! @ ` '
+    '\\ ", as Chunk keys (mapping, item assignment), dicts given to Block / Block.add, Loop columns (mapping, item '
+    'assignment); the objects are made inside the judged call, the tags must read back exactly.  '
     'A case is trivial when all its strings are plain alphanumeric; distinct = distinct '
     '(document kind, way of saving, value/hostility classes present, shape band, ways used, form of the content, '
     'calling convention, kind of target / handle and position in the call sequence) signatures'
@@ -119,7 +130,12 @@ ASSUMPTIONS = [
     'strings stay below 200 characters: the 2048-character line limit is not asserted',
     'tags and block names supplied by the workload are themselves legal (no blanks); duplicate tags '
     'are never supplied (hence with_beamline / with_reduced_powder_data / with_powder_calibration at most '
-    'once per program); duplicate VALUES are supplied and must all be written',
+    'once per program; the forked-chain class (m) applies them twice on purpose and judges those documents on the user '
+    'content in call order and against the unshared builder only); duplicate VALUES are supplied and must all be written',
+    'a builder is a value: with_* / copy() leave the builder they are called on and all its other descendants unchanged, '
+    'and the first save of a builder gives the text of the first save of an identically constructed builder (same ids)',
+    'a data name is an underscore followed by any non-blank printable ASCII characters (CIF 1.1 <Tag>); the unchanged tree '
+    'accepts all of them in every position - an exception for such a tag is a refusal to write a legal document',
     'the text of comments is not compared with what was supplied (the property only asks that comments are '
     'ASCII and lex to comments only)',
     'an open handle belongs to the caller: a call writes at the position the handle stands at (file semantics); '
@@ -3703,6 +3719,229 @@ def _sp_coinciding_sizes(env):
     ctx.event('sizes.checked', k)
 
 
+# ---- forked builder chains ---------------------------------------------------------
+# A builder is a value: with_* returns a new builder and leaves the one it was called on - and every
+# other builder derived from it - as it was.  The document of a builder is the document of the calls on
+# ITS path from CIF(...), however many relatives were derived from its ancestors before it is saved.
+FORK_KINDS = ('authors', 'reducers', 'beamline', 'reduced', 'calibration')
+_FIXED_TAG_KINDS = ('beamline', 'reduced', 'calibration')
+
+
+def _fork_op(kind, v):
+    """The ``v``-th (0, 1, 2) argument set for one combinator: all three differ in every supplied value."""
+    L = 'ABC'[v]
+    if kind == 'authors':
+        return {'op': 'authors', 'people': [person(f'Author {L}1', v == 1, f'role of {L}1', None, None, f'Address {L}'),
+                                            person(f'Author {L}2', v == 2, None if v == 0 else f'role of {L}2')]}
+    if kind == 'reducers':
+        return {'op': 'reducers', 'items': [f'reducer {L} {v + 1}.0'] + ([f'second reducer {L}'] if v == 1 else [])}
+    if kind == 'beamline':
+        return {'op': 'beamline', 'facility': [f'Facility {L}', None, f'Facility {L}'][v], 'name': f'Beamline {L}',
+                'source': v, 'comment': f'beamline comment {L}'}
+    if kind == 'reduced':
+        n = 3 + v
+        return dict(_reduced_op(('counts', 'one', 'counts')[v], ('tof', 'dspacing', 'tof')[v]),
+                    cx=[10.0 * (v + 1) + 1.5 * i for i in range(n)], cv=None,
+                    dx=[100.0 * (v + 1) + 2.25 * i for i in range(n)],
+                    dv=[0.25 * (v + 1) * (i + 1) for i in range(n)] if v != 1 else None, comment=f'data comment {L}')
+    if kind == 'calibration':
+        n = 2 + v
+        return {'op': 'calibration', 'powers': [0, 1, 2, -1][:n], 'cx': [0.5 * (v + 1) + i for i in range(n)],
+                'cv': [0.01 * (v + 1) * (i + 1) for i in range(n)] if v != 2 else None, 'comment': f'cal comment {L}'}
+    raise AssertionError(kind)
+
+
+def _fork_tree(kind):
+    """[(node name, parent name | None, op | None)] in the order of derivation: the chain and the branches
+    around one combinator - applied once, twice and three times along a chain (directly and with another
+    call in between), twice on two branches from one parent, next to every other combinator on sibling branches."""
+    other = FORK_KINDS[(FORK_KINDS.index(kind) + 1) % len(FORK_KINDS)]
+    tree = [('R', None, None), ('P', 'R', _fork_op(kind, 0))]
+    for j in FORK_KINDS:
+        tree.append((f'P+{j}', 'P', _fork_op(j, 1)))                   # j == kind: twice along the chain
+    tree += [('P+again', 'P', _fork_op(kind, 2)),                      # the same combinator on a second branch
+             ('P+twice+again', f'P+{kind}', _fork_op(kind, 2)),        # three times along the chain
+             ('P+other+again', f'P+{other}', _fork_op(kind, 1)),       # twice, another call in between
+             ('R+again', 'R', _fork_op(kind, 1)),                      # a second branch from the root
+             ('P+equal', 'P', _fork_op(kind, 0))]                      # the call repeated with equal arguments
+    return tree
+
+
+def _fork_ops(tree, name):
+    by = {n: (p, op) for n, p, op in tree}
+    ops = []
+    while by[name][0] is not None:
+        ops.append(by[name][1])
+        name = by[name][0]
+    return ops[::-1]
+
+
+_CREATION_DATE = re.compile(r'^_audit\.creation_date .*$', re.MULTILINE)
+
+
+def _sp_forked_chains_for(kind):
+    def fn(env):
+        """Forked builder chains around one combinator; every builder is saved only after ALL its relatives
+        were derived, in several orders (fresh tree per order, every builder saved once).  Judged (1) by the
+        independent parser against the calls on the builder's own path (documents in which the caller supplied
+        the fixed tags twice: the user content in the order of the calls), (2) text equality - up to the creation
+        date - with the document of an identically constructed builder that never had relatives."""
+        cif, md, ctx = env.cif, env.md, env.ctx
+        tree = _fork_tree(kind)
+        names = [n for n, _, _ in tree]
+        keys = {'mechanism': 'forked_builder_chain', 'combinator': 'with_' + kind}
+        small = ['P', f'P+{kind}', 'P+again']
+        perm = [int(i) for i in np.random.Generator(np.random.PCG64([FORK_KINDS.index(kind), 1414])).permutation(len(names))]
+        orders = [('derivation order', names), ('reverse order', names[::-1]),
+                  ('shuffled', [names[i] for i in perm])]
+        orders += [('parent and two children: ' + '>'.join(o), list(o)) for o in itertools.permutations(small)]
+        for oi, (oname, order) in enumerate(orders):
+            built = {}
+            for n, parent, op in tree:
+                if parent is None:
+                    built[n] = cif.CIF('forked', comment='top comment')
+                else:
+                    built[n] = _apply_op(cif, md, built[parent], op)
+            for n in order:
+                ops = _fork_ops(tree, n)
+                ref_act, x = build_program(cif, md, {'name': 'forked', 'top': 'top comment', 'ops': ops,
+                                                     'sig': ('forked chain', kind, n, oi)}, env.tmpdir, f'fk{oi}')
+                fixed = [o['op'] for o in ops if o['op'] in _FIXED_TAG_KINDS]
+                dup = len(set(fixed)) != len(fixed)
+                x.report_as = ('doc_forked_builder', keys)
+                buf = io.StringIO()
+                if not dup:
+                    before = ctx.n_violations
+                    env.execute(lambda b=built[n], buf=buf: b.save(buf), x)
+                    text = buf.getvalue()
+                    if ctx.n_violations != before:
+                        continue
+                else:
+                    # fixed tags supplied twice by the caller: not a document the tag-matching comparison takes;
+                    # the user content is compared item by item in the order of the calls
+                    case = dict(x.describe(), node=n, order=oname)
+                    try:
+                        built[n].save(buf)
+                    except Exception as e:  # noqa: BLE001
+                        ctx.violation('doc_forked_builder', f'{n} ({oname}): CIF.save raised {type(e).__name__}: {e}',
+                                      case, **keys)
+                        ctx.case(x.sig)
+                        continue
+                    text = buf.getvalue()
+                    ctx.case(x.sig)
+                    case['written'] = text[:1500]
+                    try:
+                        doc = cif11.parse(text)
+                        want = [it for it in x.blocks[0].items if it.group == 'user']
+                        got = [p for p in doc.blocks[0].items
+                               if (p.tag if isinstance(p, cif11.Pair) else p.tags[0]).startswith(('diffrn_', 'pd_'))]
+                        x.env['t1'] = _dt.datetime.now(_dt.timezone.utc)
+                        problems = []
+                        if len(doc.blocks) != 1 or len(want) != len(got):
+                            problems.append(f'{len(want)} items of user content supplied, {len(got)} read back')
+                        else:
+                            for it, p in zip(want, got, strict=True):
+                                problems += [m for _, m in _compare_item(it, p, x.env)]
+                    except cif11.CifSyntaxError as e:
+                        problems = [f'output is not CIF 1.1: {e}']
+                    except Exception:  # noqa: BLE001
+                        ctx.oracle_error('C14 forked chain: comparing the user content')
+                        continue
+                    ctx.event('fork.user_content_in_call_order')
+                    if problems:
+                        ctx.violation('doc_forked_builder', f'{n} ({oname}): {problems[0]}', case, **keys)
+                        continue
+                # (2) the builder that never had relatives (saved outside the document monitor: it is the same
+                # program the random workload judges)
+                ref = io.StringIO()
+                try:
+                    ref_act(ref)
+                except Exception:  # noqa: BLE001
+                    ctx.count('fork.reference_refused')
+                    continue
+                ctx.event('fork.compared_with_unshared')
+                if _CREATION_DATE.sub('', ref.getvalue()) != _CREATION_DATE.sub('', text):
+                    ctx.violation('doc_forked_builder', f'{n} ({oname}): the document differs from the document of an '
+                                  'identically constructed builder without relatives',
+                                  {'node': n, 'order': oname, 'calls': [o['op'] for o in ops],
+                                   'written': text[:1500], 'unshared': ref.getvalue()[:1500]}, **keys)
+    return fn
+
+
+# ---- tags from the whole CIF 1.1 data-name alphabet -----------------------------------
+# <Tag> = '_' {<NonBlankChar>}+ : every printable ASCII character 33..126 may occur anywhere behind the
+# underscore the writer adds.  The unchanged tree takes all of them in every position (refusals would be
+# counted); whatever is accepted must read back as exactly the supplied tag.
+TAG_WAYS = ('Chunk(dict)', 'Chunk(None)+setitem', 'Block([dict])', 'Block.add(dict)', 'Loop(dict)', 'Loop+setitem')
+DICTIONARY_TAGS = ('refine_ls.shift/su_max', 'refine_ls_shift/su_max', 'diffrn_reflns.av_unetI/netI',
+                   'diffrn_reflns_av_sigmaI/netI', 'atom_site_aniso.U[1][1]', 'refine.ls_R_factor_%',
+                   'exptl_crystal.density_(meas)', 'refln.F^2^_calc', "atom_site.label'", 'cell.angle_alpha:su',
+                   'refine_ls_restrained_S_all+gt', 'chemical_formula.sum*', 'journal.page_first&last',
+                   'diffrn.ambient_temperature<gt>', 'pd_proc.2theta_range_{min,max}', 'a=b', 'x|y~z', 'who?', 'q!@`\\"')
+
+
+def _tag_sets():
+    """[(label, [tags])]: per character its four positions; then the names of the official dictionaries."""
+    out = []
+    for cp in range(33, 127):
+        ch = chr(cp)
+        out.append((f'U+{cp:04X}', [ch + 'ab.cd', 'ab' + ch + 'x.c' + ch + 'd', 'ab.cd' + ch, ch]))
+    for i in range(0, len(DICTIONARY_TAGS), 4):
+        out.append((f'dictionary names {i // 4}', list(DICTIONARY_TAGS[i:i + 4])))
+    return out
+
+
+def _sp_tag_alphabet_for(way):
+    def fn(env):
+        cif, ctx = env.cif, env.ctx
+        seen = set()
+        for label, tags in _tag_sets():
+            strs = [f'value of {j} #{j}' for j in range(len(tags))]
+            if way.startswith('Loop'):
+                cols = {t: sc.array(dims=['r'], values=[strs[j], f'_{j}']) for j, t in enumerate(tags)}
+                xitems = [XItem('loop', tags, [[('str', strs[j]), ('str', f'_{j}')] for j in range(len(tags))])]
+            else:
+                pairs = {t: (strs[j] if j % 2 == 0 else sc.scalar(1.5 + j, unit='K')) for j, t in enumerate(tags)}
+                xitems = [XItem('pair', [t], [[model_of(v)]]) for t, v in pairs.items()]
+
+            def act(way=way):
+                # the objects are made inside the judged call: a refusal of a legal tag is a refusal to write it
+                if way == 'Chunk(dict)':
+                    content = [cif.Chunk(pairs)]
+                elif way == 'Chunk(None)+setitem':
+                    ch = cif.Chunk(None)
+                    for t, v in pairs.items():
+                        ch[t] = v
+                    content = [ch]
+                elif way == 'Block([dict])':
+                    content = [dict(pairs)]
+                elif way == 'Loop(dict)':
+                    content = [cif.Loop(cols)]
+                elif way == 'Loop+setitem':
+                    lp = cif.Loop({})
+                    for t, v in cols.items():
+                        lp[t] = v
+                    content = [lp]
+                else:
+                    content = None
+                if content is None:
+                    blk = cif.Block('tags')
+                    blk.add(dict(pairs))
+                else:
+                    blk = cif.Block('tags', content)
+                cif.save_cif(io.StringIO(), blk)
+
+            x = XDoc('lowlevel', 'save_cif:buffer', [XBlock('tags', xitems)], strict=True,
+                     sig=('lowlevel', 'forced', 'tag alphabet', way, label))
+            x.report_as = ('doc_tag_alphabet', {'mechanism': 'tag_from_cif11_alphabet', 'way': way})
+            env.execute(act, x)
+            ctx.event('tags.alphabet_document')
+            seen.update(c for t in tags for c in t)
+        if not all(chr(cp) in seen for cp in range(33, 127)):
+            ctx.inconclusive_because('C14 tag alphabet: not every printable ASCII character was supplied')
+    return fn
+
+
 def forced_specials():
     """[(forced class, function(env))]"""
     out = []
@@ -3729,6 +3968,9 @@ def forced_specials():
     ]
     out += [(f'fresh_interpreter:{w}', _sp_fresh_interpreter_for(w)) for w in _FRESH_SCRIPTS]
     out += [(f'fs:{saver}', _sp_fs_forms_for(saver)) for saver in FS_SAVERS]
+    out += [(f'fork:with_{kind}:chains_and_branches_saved_in_every_order', _sp_forked_chains_for(kind))
+            for kind in FORK_KINDS]
+    out += [(f'tags:cif11_alphabet:{way}', _sp_tag_alphabet_for(way)) for way in TAG_WAYS]
     return out
 
 
@@ -3764,7 +4006,11 @@ def requirements(tier):
                    # the same objects saved again after an in-place modification; results / arguments written into
                    # after a call; first calls of fresh interpreters; sizes coinciding with internal ones
                    'inplace.saved_again': 12, 'aliasing.checked': 11, 'document.fresh_interpreter': 3,
-                   'fresh.compared_with_worker': 3, 'sizes.checked': 1},
+                   'fresh.compared_with_worker': 3, 'sizes.checked': 1,
+                   # forked builder chains: 5 combinators x (3 orders x 13 builders + 6 orders x 3); every printable
+                   # ASCII character in the four positions of a tag x 6 ways of supplying tags (+ dictionary names)
+                   'fork.compared_with_unshared': 250, 'fork.user_content_in_call_order': 30,
+                   'tags.alphabet_document': 6 * 94},
         'forced': ['str:' + n for n, _ in FORCED] + ['empty_block_name', 'file_comment_non_ascii',
                                                       'loop_50_rows', 'loop_6_columns']
         + [n for n, _ in forced_programs()] + [s[0] for s in forced_lowlevel()]
